@@ -519,6 +519,9 @@ int main(int argc, char** argv) {
     fprintf(stderr, "cannot open %s\n", out.c_str());
     return 2;
   }
+  // line 1 is a header (the trace spec's initial state consumes it, so TLC's depth = line number)
+  fprintf(gOut, "{\"e\":\"hdr\",\"suite\":\"%s\",\"tier\":\"%s\",\"seed\":%lld}\n", suite.c_str(),
+          thorough ? "thorough" : "quick", (long long)args.num("seed", 1));
   Pools pools;
   int n = (int)args.num("n", thorough ? 6000 : 450);
   if (suite == "i8") {
